@@ -718,6 +718,12 @@ class Judge:
                     return cu
         return None
 
+    def part_disagrees(self, m, tok, vres):
+        """library and model already disagree on (type m, literal tok): reported / attributed there"""
+        mv = self.mres.get((m.name, tok))
+        lv = vres.get((m.name, tok))
+        return mv is not None and lv is not None and mv.v != SKIP and mv.v != (ACCEPT if lv else REJECT)
+
     def judge_relations(self, c, env, order, vres, vstep):
         F = self.F
         for (c0, idx, t, s, mv, lib_ok, lraw) in self.deferred:
@@ -748,7 +754,9 @@ class Judge:
                 b_ok = vres.get((t.base.name, bs))
                 if b_ok is not None and (t.base.ws() == t.ws() or D.ws_apply(t.base.ws() or 'collapse', s) == s):
                     F.axioms += 1
-                    if ok and not b_ok:
+                    if ok and not b_ok and self.part_disagrees(t.base, bs, vres):
+                        F.count('consequential-relation-disagreements')
+                    elif ok and not b_ok:
                         self.violation('C09:axiom:restriction-widens:%s:%s' % (tkey(t), lit_class(t, s)), 'a restriction accepts a literal its base type rejects', c, idx,
                                        extra=(vstep.get((t.base.name, bs), idx),), expected='base accepts too', observed='base rejects')
                     if not ok and b_ok and not [f for f in t.facets]:
@@ -759,7 +767,9 @@ class Judge:
                 if all(x is not None for x in its):
                     F.axioms += 1
                     want = all(its)
-                    if want != ok:
+                    if want != ok and any(self.part_disagrees(t.item, tok, vres) for tok in toks):
+                        F.count('consequential-relation-disagreements')
+                    elif want != ok:
                         self.violation('C09:axiom:list-vs-items:%s:%s' % (tkey(t), 'list-accepts' if ok else 'list-rejects'), 'verdict of a plain list differs from the conjunction of its item verdicts', c, idx,
                                        extra=tuple(vstep[(t.item.name, tok)] for tok in toks), expected=want, observed=ok)
             elif t.variety == 'union':
@@ -767,7 +777,9 @@ class Judge:
                 if all(x is not None for x in ms) and D.ws_collapse(s) == s:
                     F.axioms += 1
                     want = any(ms)
-                    if want != ok:
+                    if want != ok and any(self.part_disagrees(m, s, vres) for m in t.members):
+                        F.count('consequential-relation-disagreements')
+                    elif want != ok:
                         self.violation('C09:axiom:union-vs-members:%s:%s' % (tkey(t), 'union-accepts' if ok else 'union-rejects'), 'verdict of a plain union differs from the disjunction of its member verdicts', c, idx,
                                        extra=tuple(vstep[(m.name, s)] for m in t.members), expected=want, observed=ok)
 
